@@ -420,6 +420,18 @@ impl FormatSpec {
         result
     }
 
+    fn is_empty(&self) -> bool {
+        self.conversion.is_none()
+            && self.fill.is_none()
+            && self.align.is_none()
+            && self.sign.is_none()
+            && !self.alternate_form
+            && self.width.is_none()
+            && self.grouping_option.is_none()
+            && self.precision.is_none()
+            && self.format_type.is_none()
+    }
+
     pub fn format_bool(&self, input: bool) -> Result<String, FormatSpecError> {
         let x = u8::from(input);
         match &self.format_type {
@@ -435,10 +447,13 @@ impl FormatSpec {
             Some(FormatType::Exponent(_) | FormatType::FixedPoint(_) | FormatType::Percentage) => {
                 self.format_float(x as f64)
             }
-            None => {
+            // like Python, only the empty specification gives "True" / "False";
+            // anything else formats the boolean as the integer it is
+            None if self.is_empty() => {
                 let first_letter = (input.to_string().as_bytes()[0] as char).to_uppercase();
                 Ok(first_letter.collect::<String>() + &input.to_string()[1..])
             }
+            None => self.format_int(&BigInt::from_u8(x).unwrap()),
             _ => Err(FormatSpecError::InvalidFormatSpecifier),
         }
     }
